@@ -12,6 +12,7 @@ use samyama::graph::GraphStore;
 use samyama::protocol::resp::RespValue;
 use samyama::protocol::CommandHandler;
 use serde_json::json;
+use std::io::Write;
 use std::sync::Arc;
 use tokio::sync::RwLock;
 use vharness::{driver, Args, Known, Report, Rng};
@@ -280,6 +281,13 @@ fn main() {
         }
     }
 
+    // 5b. per-connection state must not leak between replies: live sessions interleaving good commands and
+    //     malformed requests in every order; after EACH request exactly the frames the model predicts for that
+    //     read (one per decoded command, one error frame per protocol error), of the expected kind
+    if args.replay.is_none() {
+        session_part(&args, &mut rep, &known, &exe);
+    }
+
     // 6. the forwarding branch (sharding): the only reply bytes not produced by RespValue::encode on
     //    this node.  A scripted owning node writes its reply in given segments; the client sends
     //    GRAPH.QUERY remote … followed by PING and must read exactly [that reply, +PONG].
@@ -299,6 +307,128 @@ fn main() {
         }
     }
     rep.write(&args.out);
+}
+
+#[derive(Debug, Clone, PartialEq)]
+enum Expect { Value(Option<RespValue>), ProtoErr }
+
+/// events text of the driver -> per-event expectation (a decoded command / a protocol error)
+fn parse_events(t: &str) -> Vec<Expect> {
+    let mut out = vec![];
+    if t == "-" { return out; }
+    let b = t.as_bytes();
+    let mut pos = 0;
+    while pos < b.len() {
+        if b[pos] == b'X' || b[pos] == b'P' { out.push(Expect::ProtoErr); pos += 2; }
+        else if parse_val(b, &mut pos).is_some() { out.push(Expect::Value(None)); }
+        else { break; }
+    }
+    out
+}
+
+/// one request at a time on one connection: write it, collect the frames that come back
+/// (until `want` frames, then a short quiet window to catch anything extra)
+fn request(s: &mut std::net::TcpStream, req: &[u8], want: usize) -> (Vec<RespValue>, Vec<u8>) {
+    use std::io::Read;
+    let _ = s.write_all(req);
+    let _ = s.flush();
+    let mut got = vec![];
+    let mut buf = BytesMut::new();
+    let mut tmp = [0u8; 8192];
+    let t0 = std::time::Instant::now();
+    loop {
+        let waiting = got.len() < want;
+        s.set_read_timeout(Some(std::time::Duration::from_millis(if waiting { 2000 } else { 40 }))).ok();
+        match s.read(&mut tmp) {
+            Ok(0) => break,
+            Ok(k) => { buf.extend_from_slice(&tmp[..k]); while let Ok(Some(v)) = RespValue::decode(&mut buf) { got.push(v); } }
+            Err(_) => break,   // timed out: nothing (more) arrived
+        }
+        if t0.elapsed() > std::time::Duration::from_secs(5) { break; }
+    }
+    (got, buf.to_vec())
+}
+
+fn session_part(args: &Args, rep: &mut Report, known: &Known, exe: &std::path::Path) {
+    let enc = |v: &RespValue| { let mut b = Vec::new(); v.encode(&mut b).unwrap(); b };
+    let remote = FakeRemote::start();
+    let Some(live) = Live::start_with(remote.as_ref().map(|r| r.port)) else { rep.notes.push("live server did not come up; session part skipped".into()); return; };
+    let bad: Vec<&[u8]> = vec![b":abc\r\n", b"$abc\r\n", b"*1\r\n$-5\r\n", b"\"unclosed\r\n", b"\xff\xfe\r\n", b"\r\n", b"*x\r\n", b"$3\r\nabcde\r\n", b"_x\r\n", b"+\xff\r\n", b"*1\r\n:\r\n+OK\r\n"];
+    // good commands with known replies
+    let goods: Vec<(Vec<u8>, RespValue)> = vec![
+        (enc(&cmd(&[b"PING"])), RespValue::SimpleString("PONG".into())),
+        (enc(&cmd(&[b"ECHO", b"previous reply"])), bulk(b"previous reply")),
+        (b"PING\r\n".to_vec(), RespValue::SimpleString("PONG".into())),
+        (enc(&cmd(&[b"GRAPH.QUERY", b"default", b"RETURN 1 AS one"])), RespValue::Null /* placeholder: any single frame */),
+    ];
+    // (label, requests: (bytes, Some(expected reply) for a good command))
+    let mut sessions: Vec<(String, Vec<(Vec<u8>, Option<RespValue>)>)> = vec![];
+    for (bi, b) in bad.iter().enumerate() {
+        let g = |k: usize| { let (r, e) = &goods[(bi + k) % goods.len()]; (r.clone(), Some(e.clone())) };
+        sessions.push(("good-bad".into(), vec![g(0), (b.to_vec(), None)]));
+        sessions.push(("bad-good".into(), vec![(b.to_vec(), None), g(1)]));
+        sessions.push(("good-bad-good".into(), vec![g(2), (b.to_vec(), None), g(3)]));
+        sessions.push(("bad-bad".into(), vec![(b.to_vec(), None), (bad[(bi + 1) % bad.len()].to_vec(), None)]));
+        if args.thorough() {
+            sessions.push(("good-good-bad-bad-good".into(), vec![g(0), g(1), (b.to_vec(), None), (bad[(bi + 3) % bad.len()].to_vec(), None), g(2)]));
+        }
+    }
+    // mixed with a forwarded reply (sharding): forwarded, bad, good
+    let fwd_req = enc(&cmd(&[b"GRAPH.QUERY", b"remote", b"RETURN 1"]));
+    let fwd_reply = bulk(b"from the owning node");
+    if remote.is_some() {
+        for b in [bad[0], bad[7]] {
+            sessions.push(("forwarded-bad-good".into(), vec![(fwd_req.clone(), Some(fwd_reply.clone())), (b.to_vec(), None), (goods[0].0.clone(), Some(goods[0].1.clone()))]));
+            sessions.push(("good-bad-forwarded".into(), vec![(goods[1].0.clone(), Some(goods[1].1.clone())), (b.to_vec(), None), (fwd_req.clone(), Some(fwd_reply.clone()))]));
+        }
+    }
+    // the model: events after each prefix of the session (one read per request)
+    let mut lines = vec![];
+    for (_, reqs) in &sessions {
+        for k in 1..=reqs.len() { lines.push(format!("feed {}", chunks_text(&reqs[..k].iter().map(|r| r.0.clone()).collect::<Vec<_>>()))); }
+    }
+    let model = driver::batch(exe, &lines);
+    let mut li = 0;
+    for (label, reqs) in &sessions {
+        let Ok(mut s) = std::net::TcpStream::connect(("127.0.0.1", live.port)) else { rep.notes.push("live connect failed".into()); return; };
+        s.set_nodelay(true).ok();
+        let mut prev_events = 0usize;
+        let mut transcript = vec![];
+        let mut failure: Option<String> = None;
+        for (req, good_reply) in reqs.iter() {
+            let m = &model[li]; li += 1;
+            let evs = parse_events(m.split(' ').nth(1).unwrap_or("-"));
+            let mine: Vec<Expect> = evs[prev_events.min(evs.len())..].to_vec();
+            prev_events = evs.len();
+            if failure.is_some() { continue; }
+            if *req == fwd_req { if let Some(r) = &remote { r.push(vec![enc(&fwd_reply)]); } }
+            let (got, left) = request(&mut s, req, mine.len());
+            transcript.push(format!("# request {} -> {} frame(s) {:?} (model: {} event(s))", hexd(req), got.len(), got.iter().map(vtext).collect::<Vec<_>>(), mine.len()));
+            let mut ok = got.len() == mine.len() && left.is_empty();
+            if ok {
+                for (g, e) in got.iter().zip(mine.iter()) {
+                    match e {
+                        Expect::ProtoErr => if !matches!(g, RespValue::Error(t) if t.starts_with("ERR ")) { ok = false; },
+                        Expect::Value(_) => {}
+                    }
+                }
+                // a good command is the last event of its read and has a known reply
+                if let (Some(want), Some(last)) = (good_reply, got.last()) {
+                    if *want != RespValue::Null && last != want { ok = false; }
+                }
+            }
+            if !ok { failure = Some(format!("request {} answered with {} frame(s), expected {}", hexd(req), got.len(), mine.len())); }
+        }
+        let canon = format!("session {} {}", label, reqs.iter().map(|r| hexd(&r.0)).collect::<Vec<_>>().join(","));
+        rep.case(&canon, true);
+        rep.count(&format!("live_session:{}", label));
+        if let Some(what) = failure {
+            let sig = format!("session-{}", label);
+            rep.count(&format!("spec_violation:{}", sig));
+            let body = format!("# live session ({}): one request per write, replies collected after each\n{}", label, transcript.join("\n"));
+            rep.spec_violation(known, &sig, &what, &body);
+        }
+    }
 }
 
 fn forward_part(args: &Args, rep: &mut Report, known: &Known, exe: &std::path::Path, rng: &mut Rng,
